@@ -142,6 +142,48 @@ def run_profile(r, exe, profile, model_cache):
     r.extra.setdefault("cases_per_profile", {})[profile] = len(by_case)
 
 
+def validate_streams(r, exe):
+    """translation validation of the operand-stack discipline: the VERIFIED checker (checkStk on the
+    certificate proposed by the untrusted inferStk) on every instruction stream the real compiler
+    produces for the templates of the case list that compile"""
+    rc, out, err = r.harness(exe, ["streams", r.tier], timeout=6000)
+    if rc != 0:
+        r.broken.append(f"harness c01 streams exited {rc}: {err[-300:]}")
+        return
+    lines = [l for l in out.splitlines() if l.startswith("S\t")]
+    ncomp = [l for l in out.splitlines() if l.startswith("N\t")]
+    r.extra["opstack_templates_compiled"] = int(ncomp[0].split("\t")[1]) if ncomp else None
+    if not lines:
+        r.broken.append("harness produced no instruction streams")
+        return
+    res = r.driver("drive_c01", "\n".join(lines) + "\n")
+    if res is None or len(res) != len(lines):
+        r.broken.append("checker driver output does not line up with the dumped streams")
+        return
+    rejected = 0
+    for line, ml in zip(lines, res):
+        _, case, name, toks = line.split("\t")
+        verdict = ml.split("\t")[3]
+        tl = toks.split(" ")
+        pops = any(t.startswith(("e:1", "e:2", "e:4", "call", "cdyn", "bd", "bl", "ul", "sw", "add", "pl", "jf", "fr", "bm")) for t in tl)
+        r.count("stream " + toks, pops)
+        r.hist["opstack_verdict"][verdict.split(" ")[0]] += 1
+        for tag, key in (("bd", "dynamic BuildList (filtered loop)"), ("cdyn", "dynamic call (splat args)"), ("pl:1", "recursive loop"),
+                         ("fr", "FastRecurse"), ("bm", "macro body"), ("sw", "Swap")):
+            if any(t.startswith(tag) for t in tl):
+                r.hist["opstack_idioms"][key] += 1
+        if verdict.startswith("ok"):
+            m = re.search(r"maxheight=(\d+)", verdict)
+            if m:
+                r.hist["opstack_max_height"][min(int(m.group(1)), 20)] += 1
+        else:
+            rejected += 1
+            if rejected <= 5:
+                r.broken.append(f"operand-stack certificate rejected for stream `{name}` of case `{case[:200]}`: {verdict[:300]}")
+    r.extra["opstack_streams_checked"] = len(lines)
+    r.extra["opstack_streams_rejected"] = rejected
+
+
 def run(r):
     r.rule = ("kernel stream: exhaustive boundary boxes (range 19x19x15, repetition, indent/tojson/format widths, batch/slice counts, "
               "lexer columns) compared with the Lean model; builtins: every name registered in defaults.rs x receiver zoo x argument "
@@ -149,6 +191,7 @@ def run(r):
               "mutations; depth probes: 63 constructs x depths; each case on the main thread and on a 2 MiB thread in child processes "
               "under a 2 GiB cap; a case is non-trivial when the real code ran to a value or to an error other than TooManyArguments/Unknown* (distinct per profile/thread)")
     r.assumptions = [
+        "operand stack: the per-instruction effect table is the exhaustive match `stk_tok` of harness/src/bin/c01.rs (hand transcription of vm/mod.rs eval_impl); recursion into a loop may target any recursive loop of the stream; nested evaluations (macro calls, blocks, includes) run their own activation on their own stack",
         "with_recursion_guard! increments depth for the duration of the guarded call and refuses above MAX_RECURSION (shape checked textually by the extractor)",
         "size_of::<Value>() = 24 and 64-bit usize (checked at run time by `c01 info`)",
         "allocations below the named limits succeed (workers run under a 2 GiB address-space cap)",
@@ -168,6 +211,7 @@ def run(r):
     r.extra["build_info"] = info
     if info.get("size_of_value") != "24" or info.get("pointer_width") != "64":
         r.broken.append(f"model assumes size_of::<Value>() = 24 on a 64-bit target, the build reports {info}")
+    validate_streams(r, exe)
     model_cache = {}
     run_profile(r, exe, "debug", model_cache)
     if r.tier == "thorough":
